@@ -88,7 +88,7 @@ def requirements(tier):
         "config:bsp": 1,
         "config:pck": 1,
         "config:dynamic-frames": 1,
-        "history:create_frames-again": 1,
+        "history:create_frames-again": 1, "history:get_orbit-result-edited-in-place": 100 if q else 2000,
         "scale:UTC": 10,
         "scale:TDB": 10,
         "scale:TT": 10,
@@ -321,6 +321,31 @@ def run_pairs(ctx, job, idx, rng, st):
     bodies = K.bodies
     zero = [0.0] * 6
     nz = 0
+    if idx % 2 == 0:
+        # ---- history: what get_orbit handed out is the caller's to re-express IN PLACE (frame / form setters); the
+        # vectors asked for afterwards at the same date -- the whole pair matrix below -- must not notice
+        for A in rng.sample([b for b in bodies if b in st["parent"]], min(4, len(st["parent"]))):
+            P = st["parent"][A]
+            Q = rng.choice([b for b in bodies if b not in (A, P)])
+            try:
+                o = jpl.get_orbit(names[A], date)
+                how = rng.choice(["frame", "frame", "form", "values"])
+                if how == "frame":
+                    o.frame = names[Q]
+                    compare("get_orbit, then .frame = other body (in place)", A, Q, probe.arr(o), via=(P, A))
+                elif how == "form":
+                    o.form = "spherical"
+                else:
+                    o[:] = [1.0, 2.0, 3.0, 4.0, 5.0, 6.0]
+                ctx.count("history:get_orbit-result-edited-in-place")
+                again = jpl.get_orbit(names[A], date)
+                compare("get_orbit asked again after the first result was edited in place", A, P, probe.arr(again.copy(form="cartesian")),
+                        extra={"edit": how})
+                z = StateVector(zero, date, "cartesian", names[P]).copy(frame=names[A])
+                compare("kernel centre seen from the body after the body's orbit was edited in place", P, A, probe.arr(z), extra={"edit": how})
+            except Exception as exc:
+                ctx.violation("C18/get_orbit-raises", dict(descr, body=names[A], exc=repr(exc), step="in-place edit history"),
+                              f"history with get_orbit({names[A]}) raised {exc!r}")
     for A in bodies:
         # ---- jpl.get_orbit(A): relative to its kernel centre --------------------------------
         orb = None
